@@ -23,6 +23,23 @@ Definition proj (o : option outcome) : option res :=
 
 Definition raw_tokens (r : raw) : list tok := pr_as_list (pr_new r).
 
+(* Combine: the strings of all leaves (as_list view), the join string between top-level items *)
+Fixpoint leaf_strings (t : tok) : list str :=
+  match t with
+  | TList l => flat_map leaf_strings l
+  | TPR r => flat_map leaf_strings (toks r)
+  | other => tok_strings other
+  end.
+Fixpoint join_strings_go (sep : str) (l : list tok) (nonempty : bool) : list str :=
+  match l with
+  | [] => []
+  | t :: rest =>
+    let pre := if nonempty then match sep with [] => [] | _ => [sep] end else [] in
+    let body := leaf_strings t in
+    pre ++ body ++ join_strings_go sep rest (nonempty || negb (match pre ++ body with [] => true | _ => false end))
+  end.
+Definition join_strings (sep : str) (l : list tok) : list str := join_strings_go sep l false.
+
 Section Peg.
 Variable G : env.
 Variable s : str.
@@ -53,6 +70,36 @@ Section Level.
               | r => r
               end
     end.
+  (* '^' : every alternative is tried; the one that consumes the most input wins, leftmost on a tie *)
+  Fixpoint peg_longest (es : list expr) (loc : nat) (best : option (nat * list tok)) : res :=
+    match es with
+    | [] => match best with Some (l, ts) => POk l ts | None => PFail end
+    | e :: es' =>
+      match rec e loc with
+      | POk l ts => peg_longest es' loc (match best with
+                                         | Some (bl, _) => if Nat.ltb bl l then Some (l, ts) else best
+                                         | None => Some (l, ts)
+                                         end)
+      | PFail => peg_longest es' loc best
+      | r => r
+      end
+    end.
+  (* repetition with stop_on: the ender is tested (as a lookahead) before every iteration *)
+  Fixpoint peg_star_stop (n : nat) (e ender : expr) (loc : nat) (acc : list tok) : res :=
+    match n with
+    | 0 => PDiv
+    | S n' =>
+      match rec ender loc with
+      | PFail => POk loc acc               (* NotAny(ender) fails = ender matches: stop *)
+      | POk _ _ =>
+        match rec e loc with
+        | POk l ts => if Nat.eqb l loc then PDiv else peg_star_stop n' e ender l (acc ++ ts)
+        | PFail => POk loc acc
+        | r => r
+        end
+      | r => r
+      end
+    end.
 End Level.
 
 Fixpoint peg (fuel : nat) (e : expr) (loc0 : nat) : res :=
@@ -69,9 +116,14 @@ Fixpoint peg (fuel : nat) (e : expr) (loc0 : nat) : res :=
       end
     | Nary _ _ NAnd es => peg_seq (peg f) es loc []
     | Nary _ _ NMatchFirst es => peg_first (peg f) es loc
+    | Nary _ _ NOr es =>
+      (* Or itself never pre-parses (callPreparse = False) but skips its own whitespace first when every alternative pre-parses *)
+      let loc1 := if forallb (fun c => callpre (attrs_of c)) es
+                  then (if skipws a then skip_white s loc (white a) else loc) else loc in
+      peg_longest (peg f) es loc1 None
     | Enh _ _ (EOpt d) c =>
       match peg f c loc with
-      | PFail => POk loc (match d with Some v => [v] | None => [] end)
+      | PFail => POk loc (match d with Some v => [tok_as_list v] | None => [] end)
       | r => r
       end
     | Enh _ _ ENot c => match peg f c loc with POk _ _ => PFail | PFail => POk loc [] | r => r end
@@ -79,6 +131,23 @@ Fixpoint peg (fuel : nat) (e : expr) (loc0 : nat) : res :=
     | Enh _ _ (EGroup false) c => match peg f c loc with POk l ts => POk l [TList ts] | r => r end
     | Enh _ _ ESuppress c => match peg f c loc with POk l _ => POk l [] | r => r end
     | Enh _ _ EPass c => peg f c loc
+    | Enh _ _ (ECombine join) c =>
+      match peg f c loc with
+      | POk l ts => POk l [TStr (concat (join_strings join ts))]
+      | r => r
+      end
+    | Rep _ _ zero body (Some ne) =>
+      (* `ne` is NotAny(stop_on): it matches (POk) when the ender does NOT match *)
+      match peg f ne loc with
+      | PFail => if zero then POk loc [] else PFail
+      | POk _ _ =>
+        match peg f body loc with
+        | POk l ts => peg_star_stop (peg f) (length s + 3) body ne l ts
+        | PFail => if zero then POk loc [] else PFail
+        | r => r
+        end
+      | r => r
+      end
     | Rep _ _ zero body None =>
       match peg f body loc with
       | POk l ts => peg_star (peg f) (length s + 3) body l ts
@@ -133,3 +202,34 @@ Fixpoint in_class (e : expr) : bool :=
 End Class.
 
 Definition env_in_class (G : env) : bool := forallb (in_class G) G.
+
+(* the (wider) class on which the reference reading `peg` is defined and compared with the implementation by the
+   correspondence check; `in_class` above is the part covered by the theorem *)
+Section RefClass.
+Variable G : env.
+Fixpoint in_ref_class (e : expr) : bool :=
+  let all := fix all (l : list expr) : bool := match l with [] => true | x :: r => in_ref_class x && all r end in
+  match e with
+  | Tok a ign t => plain_attrs a && match ign with [] => true | _ => false end && tok_in_class t
+  | Nary a ign NAnd es =>
+    plain_attrs a && match ign with [] => true | _ => false end &&
+    match es with [] => false | c :: _ => child_ok a c end && all es
+  | Nary a ign NMatchFirst es => plain_attrs a && match ign with [] => true | _ => false end && all es
+  | Nary a ign NOr es => plain_attrs a && match ign with [] => true | _ => false end && all es
+  | Enh a ign k c =>
+    plain_attrs a && match ign with [] => true | _ => false end && in_ref_class c &&
+    match k with
+    | EOpt _ | EGroup false | ESuppress | EPass | ECombine _ => child_ok a c
+    | ENot | EFollowedBy => true
+    | _ => false
+    end
+  | Rep a ign _ body ne =>
+    plain_attrs a && match ign with [] => true | _ => false end && in_ref_class body &&
+    match ne with Some n => in_ref_class n | None => true end
+  | Fwd a ign (Some id) =>
+    plain_attrs a && match ign with [] => true | _ => false end &&
+    match nth_error G id with Some c => child_ok a c | None => true end
+  | _ => false
+  end.
+End RefClass.
+Definition env_in_ref_class (G : env) : bool := forallb (in_ref_class G) G.
